@@ -35,6 +35,60 @@ struct Mutator<'a, 'c, 'd> {
     want: Option<Form>,
     /// offer the bare-*-in-union forms
     allow_bare: bool,
+    /// near-miss mode: offer the whole palette of value kinds instead of the hand-picked forms
+    cross: bool,
+    /// where the walk currently is / where the form was applied
+    path: Vec<Step>,
+    applied_path: Vec<Step>,
+}
+
+/// One step from a value to a component of it.
+#[derive(Clone, Debug, PartialEq)]
+pub enum Step {
+    Field(String),
+    Item(usize),
+    Key(String),
+    Branch(usize),
+}
+
+/// One value of every kind `types::Value` has.
+fn cross_palette() -> Vec<(&'static str, Value)> {
+    use apache_avro::{Days, Decimal, Millis, Months};
+    vec![
+        ("cross:null", Value::Null),
+        ("cross:boolean", Value::Boolean(true)),
+        ("cross:int", Value::Int(1)),
+        ("cross:long", Value::Long(1)),
+        ("cross:long-big", Value::Long(1 << 40)),
+        ("cross:float", Value::Float(1.0)),
+        ("cross:double", Value::Double(1.0)),
+        ("cross:bytes", Value::Bytes(vec![1])),
+        ("cross:bytes16", Value::Bytes(vec![7; 16])),
+        ("cross:string", Value::String("a".into())),
+        ("cross:string-uuid", Value::String("00000000-0000-0000-0000-000000000001".into())),
+        ("cross:fixed1", Value::Fixed(1, vec![1])),
+        ("cross:fixed12", Value::Fixed(12, vec![1; 12])),
+        ("cross:fixed16", Value::Fixed(16, vec![1; 16])),
+        ("cross:enum", Value::Enum(0, "A".into())),
+        ("cross:array", Value::Array(vec![])),
+        ("cross:array1", Value::Array(vec![Value::Int(1)])),
+        ("cross:map", Value::Map(HashMap::new())),
+        ("cross:record", Value::Record(vec![])),
+        ("cross:date", Value::Date(1)),
+        ("cross:time-millis", Value::TimeMillis(1)),
+        ("cross:time-micros", Value::TimeMicros(1)),
+        ("cross:timestamp-millis", Value::TimestampMillis(1)),
+        ("cross:timestamp-micros", Value::TimestampMicros(1)),
+        ("cross:timestamp-nanos", Value::TimestampNanos(1)),
+        ("cross:local-timestamp-millis", Value::LocalTimestampMillis(1)),
+        ("cross:local-timestamp-micros", Value::LocalTimestampMicros(1)),
+        ("cross:local-timestamp-nanos", Value::LocalTimestampNanos(1)),
+        ("cross:decimal", Value::Decimal(Decimal::from(vec![1u8]))),
+        ("cross:big-decimal", Value::BigDecimal(bigdecimal::BigDecimal::from(1))),
+        ("cross:uuid", Value::Uuid(uuid::Uuid::from_bytes([1; 16]))),
+        ("cross:duration", Value::Duration(Duration::new(Months::new(1), Days::new(1), Millis::new(1)))),
+        ("cross:union0-null", Value::Union(0, Box::new(Value::Null))),
+    ]
 }
 
 fn duration_bytes(d: &Duration) -> Vec<u8> {
@@ -49,6 +103,15 @@ impl<'a, 'c, 'd> Mutator<'a, 'c, 'd> {
     /// candidate forms at this (node, value) position
     fn candidates(&mut self, node: &SNode, v: &Value) -> Vec<(&'static str, Value)> {
         let mut out: Vec<(&'static str, Value)> = vec![];
+        if self.near_miss && self.cross {
+            // any value kind at any position: what validation accepts must be written readably
+            for (name, pv) in cross_palette() {
+                if std::mem::discriminant(&pv) != std::mem::discriminant(v) {
+                    out.push((name, pv));
+                }
+            }
+            return out;
+        }
         if self.near_miss {
             match (&node.ty, v) {
                 (SType::Int, Value::Int(x)) if node.logical.is_none() => {
@@ -161,6 +224,7 @@ impl<'a, 'c, 'd> Mutator<'a, 'c, 'd> {
             if w.at == node.lkind() {
                 if let Some((name, nv)) = cands.into_iter().find(|(n, _)| *n == w.name) {
                     self.applied = Some(Form { name, at: node.lkind() });
+                    self.applied_path = self.path.clone();
                     return nv;
                 }
             }
@@ -169,27 +233,50 @@ impl<'a, 'c, 'd> Mutator<'a, 'c, 'd> {
                 let i = self.c.pick(cands.len());
                 let (name, nv) = cands.into_iter().nth(i).unwrap();
                 self.applied = Some(Form { name, at: node.lkind() });
+                self.applied_path = self.path.clone();
                 return nv;
             }
             self.skip -= 1;
         }
         match (&node.ty, v) {
-            (SType::Array(items), Value::Array(a)) => Value::Array(a.iter().map(|x| self.walk(items, x)).collect()),
+            (SType::Array(items), Value::Array(a)) => Value::Array(
+                a.iter()
+                    .enumerate()
+                    .map(|(i, x)| {
+                        self.path.push(Step::Item(i));
+                        let r = self.walk(items, x);
+                        self.path.pop();
+                        r
+                    })
+                    .collect(),
+            ),
             (SType::Map(values), Value::Map(m)) => {
                 let mut keys: Vec<&String> = m.keys().collect();
                 keys.sort();
                 let mut out = HashMap::new();
                 for k in keys {
+                    self.path.push(Step::Key(k.clone()));
                     out.insert(k.clone(), self.walk(values, &m[k]));
+                    self.path.pop();
                 }
                 Value::Map(out)
             }
-            (SType::Union(bs), Value::Union(i, inner)) if (*i as usize) < bs.len() => Value::Union(*i, Box::new(self.walk(&bs[*i as usize], inner))),
+            (SType::Union(bs), Value::Union(i, inner)) if (*i as usize) < bs.len() => {
+                self.path.push(Step::Branch(*i as usize));
+                let r = Value::Union(*i, Box::new(self.walk(&bs[*i as usize], inner)));
+                self.path.pop();
+                r
+            }
             (SType::Record(_, fields), Value::Record(items)) => Value::Record(
                 items
                     .iter()
                     .map(|(n, x)| match fields.iter().find(|f| f.name == *n) {
-                        Some(f) => (n.clone(), self.walk(&f.node, x)),
+                        Some(f) => {
+                            self.path.push(Step::Field(n.clone()));
+                            let r = (n.clone(), self.walk(&f.node, x));
+                            self.path.pop();
+                            r
+                        }
                         None => (n.clone(), x.clone()),
                     })
                     .collect(),
@@ -199,23 +286,123 @@ impl<'a, 'c, 'd> Mutator<'a, 'c, 'd> {
     }
 }
 
-fn count_positions(node: &SNode, v: &Value, env: &Env, near: bool, allow_bare: bool, c: &mut Choices) -> usize {
+fn count_positions(node: &SNode, v: &Value, env: &Env, near: bool, allow_bare: bool, cross: bool, c: &mut Choices) -> usize {
     // dry run with an unreachable skip count, counting candidates
-    let mut m = Mutator { env, c, skip: usize::MAX, applied: None, near_miss: near, want: None, allow_bare };
+    let mut m = Mutator { env, c, skip: usize::MAX, applied: None, near_miss: near, want: None, allow_bare, cross, path: vec![], applied_path: vec![] };
     m.walk(node, v);
     usize::MAX - m.skip
 }
 
 /// Apply one form change at a random position. None if the value offers no position.
 pub fn apply_form(node: &SNode, v: &Value, env: &Env, near: bool, allow_bare: bool, c: &mut Choices) -> Option<(Value, Form)> {
-    let n = count_positions(node, v, env, near, allow_bare, c);
+    apply_form_at(node, v, env, near, allow_bare, c).map(|(v, f, _)| (v, f))
+}
+
+/// As `apply_form`, also telling where the form was applied.
+pub fn apply_form_at(node: &SNode, v: &Value, env: &Env, near: bool, allow_bare: bool, c: &mut Choices) -> Option<(Value, Form, Vec<Step>)> {
+    // half of the near-miss cases draw from the palette of all value kinds
+    let cross = near && c.bool();
+    let n = count_positions(node, v, env, near, allow_bare, cross, c);
     if n == 0 {
         return None;
     }
     let skip = c.pick(n);
-    let mut m = Mutator { env, c, skip, applied: None, near_miss: near, want: None, allow_bare };
+    let mut m = Mutator { env, c, skip, applied: None, near_miss: near, want: None, allow_bare, cross, path: vec![], applied_path: vec![] };
     let out = m.walk(node, v);
-    m.applied.map(|f| (out, f))
+    let path = m.applied_path.clone();
+    m.applied.map(|f| (out, f, path))
+}
+
+// ---------------------------------------------------------------- the library's own branch choice
+
+/// The component of a library schema reached by `path`, with the namespace in force there.
+fn lib_schema_at<'s>(schema: &'s apache_avro::Schema, names: &'s apache_avro::schema::NamesRef<'s>, path: &[Step], ns: Option<String>) -> Option<(&'s apache_avro::Schema, Option<String>)> {
+    use apache_avro::Schema as S;
+    let (schema, ns) = match schema {
+        S::Ref { name } => {
+            let full = name.fully_qualified_name(ns.as_deref()).into_owned();
+            let target = names.get(&full)?;
+            let ns2 = full.namespace().map(|x| x.to_string());
+            (*target, ns2)
+        }
+        other => (other, ns),
+    };
+    let Some((step, rest)) = path.split_first() else {
+        return Some((schema, ns));
+    };
+    match (schema, step) {
+        (S::Record(r), Step::Field(n)) => {
+            let ns2 = r.name.namespace().map(|x| x.to_string()).or(ns);
+            let idx = *r.lookup.get(n)?;
+            lib_schema_at(&r.fields[idx].schema, names, rest, ns2)
+        }
+        (S::Array(a), Step::Item(_)) => lib_schema_at(&a.items, names, rest, ns),
+        (S::Map(m), Step::Key(_)) => lib_schema_at(&m.types, names, rest, ns),
+        (S::Union(u), Step::Branch(i)) => lib_schema_at(u.variants().get(*i)?, names, rest, ns),
+        _ => None,
+    }
+}
+
+fn value_at<'v>(v: &'v Value, path: &[Step]) -> Option<&'v Value> {
+    let Some((step, rest)) = path.split_first() else {
+        return Some(v);
+    };
+    match (v, step) {
+        (Value::Record(items), Step::Field(n)) => value_at(&items.iter().find(|(k, _)| k == n)?.1, rest),
+        (Value::Array(a), Step::Item(i)) => value_at(a.get(*i)?, rest),
+        (Value::Map(m), Step::Key(k)) => value_at(m.get(k)?, rest),
+        (Value::Union(i, inner), Step::Branch(j)) if *i as usize == *j => value_at(inner, rest),
+        _ => None,
+    }
+}
+
+/// A bare value sits at `path` (a union position). Validation accepted it because
+/// `UnionSchema::find_schema_with_known_schemata` found a branch; the encoder has to write the value
+/// under that very branch. Returns a description of the disagreement, if any: the bytes written for
+/// the bare value differ from the bytes written for the same value wrapped as `Union(branch, value)`.
+pub fn bare_branch_disagreement(sub: &Subject, val: &Value, path: &[Step]) -> Option<String> {
+    let resolved = apache_avro::schema::ResolvedSchema::try_from(&sub.schema).ok()?;
+    let names = resolved.get_names();
+    let (at, ns) = lib_schema_at(&sub.schema, names, path, None)?;
+    let apache_avro::Schema::Union(u) = at else {
+        return None;
+    };
+    let bare = value_at(val, path)?;
+    if matches!(bare, Value::Union(..)) {
+        return None;
+    }
+    let (index, _) = u.find_schema_with_known_schemata(bare, Some(names), ns.as_deref())?;
+    let w = GenericDatumWriter::builder(&sub.schema).validate(false).build().ok()?;
+    let bytes = w.write_value_to_vec(val.clone()).ok()?;
+    // which branch did the encoder write? (read with the reference decoder; byte comparison would
+    // trip over the free order of map entries)
+    let (decoded, _) = refbin::decode(&sub.node, &sub.env, &bytes).ok()?;
+    let written = spec_value_at(&sub.node, &decoded, path, &sub.env)?;
+    let V::Union(wi, _) = written else {
+        return None;
+    };
+    if *wi != index {
+        Some(format!("validation matches the bare value {} with branch {index} of the union, but the encoder wrote it under branch {wi} (datum {})", short(bare), crate::json::hex(&bytes)))
+    } else {
+        None
+    }
+}
+
+fn spec_value_at<'v>(node: &SNode, v: &'v V, path: &[Step], env: &Env) -> Option<&'v V> {
+    let node = deref(node, env);
+    let Some((step, rest)) = path.split_first() else {
+        return Some(v);
+    };
+    match (&node.ty, v, step) {
+        (SType::Record(_, fields), V::Record(items), Step::Field(n)) => {
+            let i = fields.iter().position(|f| f.name == *n)?;
+            spec_value_at(&fields[i].node, items.get(i)?, rest, env)
+        }
+        (SType::Array(items), V::Array(a), Step::Item(i)) => spec_value_at(items, a.get(*i)?, rest, env),
+        (SType::Map(values), V::Map(m), Step::Key(k)) => spec_value_at(values, &m.iter().find(|(k2, _)| k2 == k)?.1, rest, env),
+        (SType::Union(bs), V::Union(i, inner), Step::Branch(j)) if i == j => spec_value_at(bs.get(*i)?, inner, rest, env),
+        _ => None,
+    }
 }
 
 // ---------------------------------------------------------------- canonicalisation (the harness's own)
@@ -254,6 +441,23 @@ pub fn denotes(node: &SNode, val: &Value, got: &V, env: &Env) -> bool {
         }
         (Some(Logical::Uuid), SType::Fixed(..), Value::Fixed(16, b), V::Uuid(g)) | (Some(Logical::Uuid), SType::Bytes, Value::Bytes(b), V::Uuid(g)) => b[..] == g[..],
         (Some(Logical::Uuid), SType::String, Value::String(s), V::Uuid(g)) => uuid::Uuid::parse_str(s).map(|u| u.as_bytes() == g).unwrap_or(false),
+        // int-based and long-based values are interchangeable where resolution matched them (inside a union)
+        (Some(Logical::Date | Logical::TimeMillis), _, Value::Date(x) | Value::TimeMillis(x), V::Int(g)) => x == g,
+        (
+            Some(Logical::TimeMicros | Logical::TimestampMillis | Logical::TimestampMicros | Logical::TimestampNanos | Logical::LocalTimestampMillis | Logical::LocalTimestampMicros | Logical::LocalTimestampNanos),
+            _,
+            Value::TimeMicros(x) | Value::TimestampMillis(x) | Value::TimestampMicros(x) | Value::TimestampNanos(x) | Value::LocalTimestampMillis(x) | Value::LocalTimestampMicros(x) | Value::LocalTimestampNanos(x),
+            V::Long(g),
+        ) => x == g,
+        // a logical-typed value matched (inside a union, by resolution) against a branch of its base type
+        (None, SType::Int, Value::Date(x) | Value::TimeMillis(x), V::Int(g)) => x == g,
+        (None, SType::Long, Value::Date(x) | Value::TimeMillis(x), V::Long(g)) => *x as i64 == *g,
+        (
+            None,
+            SType::Long,
+            Value::TimeMicros(x) | Value::TimestampMillis(x) | Value::TimestampMicros(x) | Value::TimestampNanos(x) | Value::LocalTimestampMillis(x) | Value::LocalTimestampMicros(x) | Value::LocalTimestampNanos(x),
+            V::Long(g),
+        ) => x == g,
         // a uuid value matched (inside a union) against a plain string/bytes/fixed(16) branch
         (None, SType::String, Value::Uuid(u), V::Str(g)) => u.to_string() == *g,
         (None, SType::Bytes, Value::Uuid(u), V::Bytes(g)) => u.as_bytes()[..] == g[..],
@@ -388,14 +592,18 @@ pub fn case_forms(c: &mut Choices, log: &mut CaseLog) -> CaseResult {
     let mut val = canonical.clone();
     let mut forms: Vec<Form> = vec![];
     let mut singles: Vec<(Value, Form)> = vec![];
+    let mut bare_path: Option<Vec<Step>> = None;
     for i in 0..k {
         // a near-miss or a bare-value-in-union form stands alone (validation matches bare values by
         // *resolution*, so combining them with other non-canonical forms multiplies known leniencies);
         // combinations are drawn among the other forms
         let nm = near && i == 0;
-        let Some((nv, f)) = apply_form(&sub.node, &val, &sub.env, nm, i == 0, c) else {
+        let Some((nv, f, path)) = apply_form_at(&sub.node, &val, &sub.env, nm, i == 0, c) else {
             break;
         };
+        if f.name.starts_with("bare-") {
+            bare_path = Some(path);
+        }
         let alone = nm || f.name.starts_with("bare-");
         if let Some((sv, sf)) = apply_form_same(&sub.node, &canonical, &sub.env, &f, nm, c) {
             singles.push((sv, sf));
@@ -423,6 +631,16 @@ pub fn case_forms(c: &mut Choices, log: &mut CaseLog) -> CaseResult {
             ("forms", Js::Arr(forms.iter().map(|f| Js::Str(format!("{}@{}", f.name, f.at))).collect())),
         ])
     };
+    // independent of the outcome below: the encoder writes a bare value under the branch that
+    // validation matched it with
+    if let Some(path) = &bare_path {
+        if val.validate(&sub.schema) {
+            log.label("bare_branch_compared");
+            if let Some(msg) = bare_branch_disagreement(&sub, &val, path) {
+                return Err(Fail::new(format!("C07/encoder-branch-differs-from-validation/{}@{}", forms[0].name, forms[0].at), msg).with(describe(&val, &forms)));
+            }
+        }
+    }
     match check_value(&sub, &val, &good) {
         Ok(side) => {
             log.label(side);
@@ -432,11 +650,16 @@ pub fn case_forms(c: &mut Choices, log: &mut CaseLog) -> CaseResult {
             Ok(())
         }
         Err(verdict) => {
+            // a value of another kind put at a union position is a bare value in a union: validation
+            // matches it by resolution (known to change values); other verdicts keep their own key
+            let class = |f: &Form| -> String {
+                if f.name.starts_with("cross:") && f.at == "union" { "bare-value-in-union@union".to_string() } else { format!("{}@{}", f.name, f.at) }
+            };
             // attribute to a single form when one alone reproduces the same verdict
             // (the verdict may differ: a corrupt datum is sometimes unreadable, sometimes a wrong value)
             for (sv, sf) in &singles {
                 if let Err(v1) = check_value(&sub, sv, &good) {
-                    return Err(Fail::new(format!("C07/{}/{}@{}", v1.key, sf.name, sf.at), v1.msg).with(describe(sv, std::slice::from_ref(sf))));
+                    return Err(Fail::new(format!("C07/{}/{}", v1.key, class(sf)), v1.msg).with(describe(sv, std::slice::from_ref(sf))));
                 }
             }
             // forms whose own known leniency explains a failure of any combination containing them
@@ -444,7 +667,7 @@ pub fn case_forms(c: &mut Choices, log: &mut CaseLog) -> CaseResult {
             if let Some(f) = forms.iter().find(|f| LENIENT.contains(&f.name)) {
                 return Err(Fail::new(format!("C07/{}/{}@{}", verdict.key, f.name, f.at), verdict.msg).with(describe(&val, &forms)));
             }
-            let mut names: Vec<String> = forms.iter().map(|f| format!("{}@{}", f.name, f.at)).collect();
+            let mut names: Vec<String> = forms.iter().map(|f| class(f)).collect();
             names.sort();
             names.dedup();
             let tag = if names.is_empty() { "canonical".to_string() } else { names.join("+") };
@@ -455,7 +678,7 @@ pub fn case_forms(c: &mut Choices, log: &mut CaseLog) -> CaseResult {
 
 /// Re-apply the same kind of form alone on the canonical value (first position offering it).
 fn apply_form_same(node: &SNode, canonical: &Value, env: &Env, form: &Form, near: bool, c: &mut Choices) -> Option<(Value, Form)> {
-    let mut m = Mutator { env, c, skip: 0, applied: None, near_miss: near, want: Some(form.clone()), allow_bare: true };
+    let mut m = Mutator { env, c, skip: 0, applied: None, near_miss: near, want: Some(form.clone()), allow_bare: true, cross: form.name.starts_with("cross:"), path: vec![], applied_path: vec![] };
     let out = m.walk(node, canonical);
     m.applied.map(|f| (out, f))
 }
